@@ -163,7 +163,9 @@ func runC16(c *Ctx) {
 	if c.thorough() {
 		nrand = 40000
 	}
-	alpha := []string{"a", "b", "c", "foo", "*", ">", "*", "x1", "A", "$1", " "}
+	// tokens that extend or truncate one another character-wise, and literal tokens that merely contain or end in a
+	// wildcard character: only a WHOLE token "*" or ">" is a wildcard, and tokens are compared whole
+	alpha := []string{"a", "b", "c", "foo", "*", ">", "*", "x1", "A", "$1", " ", "ab", "abc", "fo", "foobar", "order", "orders", "eu>", ">>", "a*", "*a", "**", "*>", "a>b"}
 	gen := func() string {
 		n := 1 + c.Rng.Intn(7)
 		toks := make([]string, n)
@@ -191,8 +193,25 @@ func runC16(c *Ctx) {
 			toks := strings.Split(s, ".")
 			ot := append([]string(nil), toks...)
 			for i := range ot {
-				if c.Rng.Intn(3) == 0 {
+				switch c.Rng.Intn(6) {
+				case 0, 1:
 					ot[i] = "*"
+				case 2:
+					// a character-wise neighbour of the token: one character fewer, one more, or a wildcard character appended
+					switch t := ot[i]; c.Rng.Intn(4) {
+					case 0:
+						if len(t) > 1 {
+							ot[i] = t[:len(t)-1]
+						}
+					case 1:
+						ot[i] = t + "x"
+					case 2:
+						ot[i] = t + ">"
+					default:
+						if len(t) > 1 {
+							ot[i] = t[1:]
+						}
+					}
 				}
 			}
 			if c.Rng.Intn(3) == 0 {
